@@ -489,64 +489,3 @@ Definition mksched (c T : nat) (pad : bool) (inp : list N) (rnd : N) : list nat 
 Definition ex_bytes (n : nat) : list N := map (fun i => N.of_nat (i * 7 mod 256)) (seq 0 n).
 Definition complete (c T : nat) (pad : bool) (inp : list N) (sched : list nat) : bool :=
   match tag_run c T pad inp sched with Some (s, _) => terminal _ s | None => false end.
-
-(* T = 1, padding, empty input; spurious wake-ups (id 3 = worker 0) *)
-Example sim_ex1 : let sc := [0; 0; 1; 1; 0; 3; 0; 1; 1; 1; 0; 0; 1; 1; 0; 3; 1; 0; 0; 0; 3; 0; 1; 1; 0] in
-  sim_run 1 1 true (ex_bytes 0) sc = None /\ complete 1 1 true (ex_bytes 0) sc = true.
-Proof. vm_compute. split; reflexivity. Qed.
-(* T = 1, no padding, empty input (the first load is NODATA) *)
-Example sim_ex2 : let sc := [0; 1; 1; 0; 0; 0; 0; 1; 1; 1; 1; 1; 0] in
-  sim_run 1 1 false (ex_bytes 0) sc = None /\ complete 1 1 false (ex_bytes 0) sc = true.
-Proof. vm_compute. split; reflexivity. Qed.
-(* T = 2, c = 2, padding, exact multiple of the chunk (64 = 2 * 32): a last chunk of padding only; spurious wake-ups 4, 5 *)
-Example sim_ex3 : let sc :=
-  [0; 1; 1; 4; 1; 2; 4; 2; 0; 0; 5; 2; 0; 0; 0; 1; 1; 0; 0; 5; 1; 2; 5; 2; 1; 0; 2; 1; 0; 2; 1; 0; 2; 4;
-   0; 0; 0; 1; 0; 1; 1; 0; 2; 2; 0; 0; 1; 2; 1; 1; 0; 0; 0; 0; 0; 2; 2; 0; 0; 0; 0; 0; 1; 1; 0] in
-  sim_run 2 2 true (ex_bytes 64) sc = None /\ complete 2 2 true (ex_bytes 64) sc = true.
-Proof. vm_compute. split; reflexivity. Qed.
-(* T = 2, c = 2, no padding, exact multiple of the chunk (the peek for end-of-file) *)
-Example sim_ex4 : let sc :=
-  [0; 0; 2; 0; 1; 2; 1; 0; 1; 0; 0; 5; 0; 1; 0; 0; 0; 0; 3; 2; 2; 1; 0; 2; 3; 0; 2; 1; 2; 3; 1; 0; 2; 0;
-   0; 1; 0; 0; 1; 0; 5; 0; 1; 0; 0; 0; 2; 5; 0; 0; 2; 2; 0] in
-  sim_run 2 2 false (ex_bytes 64) sc = None /\ complete 2 2 false (ex_bytes 64) sc = true.
-Proof. vm_compute. split; reflexivity. Qed.
-(* T = 3, c = 1, padding, 100 bytes: 7 chunks, more chunks than workers; spurious wake-ups 5, 6, 7 *)
-Example sim_ex5 : let sc :=
-  [1; 3; 1; 5; 0; 1; 0; 3; 0; 7; 3; 2; 5; 2; 0; 0; 6; 2; 1; 1; 1; 0; 1; 0; 1; 0; 5; 0; 0; 1; 0; 2; 0; 7;
-   5; 3; 2; 2; 2; 2; 0; 1; 0; 3; 3; 3; 0; 3; 0; 0; 5; 3; 1; 5; 0; 0; 1; 5; 1; 0; 1; 7; 0; 6; 1; 2; 1; 1;
-   0; 6; 2; 0; 1; 6; 5; 3; 1; 7; 2; 3; 0; 0; 0; 2; 5; 2; 7; 1; 0; 2; 0; 3; 0; 2; 2; 7; 0; 6; 5; 3; 1; 0;
-   2; 7; 3; 0; 5; 0; 1; 3; 0; 6; 0; 2; 5; 1; 0; 0; 0; 0; 1; 6; 0; 2; 3; 1; 1; 1; 3; 3; 1; 0; 0; 0; 0; 0;
-   2; 5; 3; 1; 2; 0; 5; 7; 3; 1; 0; 0; 0; 0; 3; 0; 3; 0; 0; 0; 5; 0; 1; 0; 0; 1; 1; 0] in
-  sim_run 1 3 true (ex_bytes 100) sc = None /\ complete 1 3 true (ex_bytes 100) sc = true.
-Proof. vm_compute. split; reflexivity. Qed.
-(* T = 3, c = 1, no padding, ragged input (37 = 2 * 16 + 5): the last load is NODATA after reading 5 bytes *)
-Example sim_ex6 : let sc :=
-  [1; 0; 3; 0; 0; 1; 3; 7; 5; 3; 1; 2; 2; 0; 0; 1; 0; 1; 0; 1; 6; 0; 1; 7; 1; 0; 3; 7; 0; 0; 3; 2; 2; 0;
-   2; 2; 0; 7; 0; 0; 2; 6; 5; 1; 0; 3; 5; 3; 0; 3; 2; 6; 0; 1; 2; 0; 0; 0; 1; 1; 0; 0; 0; 3; 0; 3; 6; 0;
-   0; 2; 2; 0] in
-  sim_run 1 3 false (ex_bytes 37) sc = None /\ complete 1 3 false (ex_bytes 37) sc = true.
-Proof. vm_compute. split; reflexivity. Qed.
-(* T = 2, c = 1, no padding, 5 chunks *)
-Example sim_ex7 : let sc :=
-  [1; 1; 2; 0; 0; 2; 0; 0; 1; 0; 0; 5; 1; 0; 2; 1; 5; 1; 2; 0; 1; 0; 0; 0; 0; 2; 4; 1; 4; 1; 0; 0; 2; 0;
-   0; 0; 1; 1; 1; 2; 1; 1; 4; 1; 2; 2; 0; 0; 0; 0; 5; 2; 0; 0; 2; 2; 2; 2; 0; 0; 4; 1; 2; 0; 5; 0; 2; 0;
-   5; 1; 1; 1; 1; 2; 0; 0; 1; 0; 0; 0; 0; 0; 4; 2; 2; 0; 1; 0; 0; 4; 1; 4; 0; 0; 1; 1; 0] in
-  sim_run 1 2 false (ex_bytes 80) sc = None /\ complete 1 2 false (ex_bytes 80) sc = true.
-Proof. vm_compute. split; reflexivity. Qed.
-(* T = 1, c = 3, padding, 50 bytes: a full chunk and a padded one *)
-Example sim_ex8 : let sc :=
-  [1; 0; 1; 3; 1; 0; 0; 0; 0; 0; 1; 1; 1; 1; 1; 1; 1; 0; 0; 0; 0; 0; 1; 0; 1; 1; 0; 1; 0; 1; 0; 0; 0; 0;
-   0; 1; 1; 0] in
-  sim_run 3 1 true (ex_bytes 50) sc = None /\ complete 3 1 true (ex_bytes 50) sc = true.
-Proof. vm_compute. split; reflexivity. Qed.
-(* generated schedules, T = 4 *)
-Example sim_ex9 : forallb (fun rnd => match sim_run 2 4 true (ex_bytes 150) (mksched 2 4 true (ex_bytes 150) rnd) with None => true | _ => false end)
-                          [1%N; 2%N; 3%N] = true.
-Proof. vm_compute. reflexivity. Qed.
-(* the relation is not trivial: a model state with another pc, other input or padding flag is rejected *)
-Example sim_ex_neg :
-  let cs0 := match run_to_marker 20 (run_fuel 1) (conc_init 1 2 true (ex_bytes 20)) with MiniC.Ok cs => cs | _ => conc_init 1 2 true (ex_bytes 20) end in
-  let s0 n := init (N * N) 2 (tag_init 2) (loads_of 1 true (ex_bytes n)) in
-  (simb 1 2 true (s0 20) cs0, simb 1 2 true (s0 21) cs0, simb 1 2 true (set_io _ (s0 20) I_Cmp) cs0,
-   simb 1 2 true (set_wpc _ (s0 20) 1 W_Start) cs0, simb 1 2 false (s0 20) cs0) = (true, false, false, false, false).
-Proof. vm_compute. reflexivity. Qed.
